@@ -18,9 +18,9 @@ func propC05(c *Ctx) {
 	conv := m.conv
 	fDeps := w.Field("shovel/config", "Integration", "Dependencies")
 	_ = w.Field("shovel", "Task", "stop")
-	loads := callsToFn(conv, m.load)
-	deps := callsToFn(conv, m.latestDep)
-	lats := callsToFn(conv, m.latest)
+	loads := m.calls(m.load)
+	deps := m.calls(m.latestDep)
+	lats := m.calls(m.latest)
 
 	c.Rule("R5.1", "with dependencies, the target reaching load is bounded by the dependency position", 4)
 	if len(loads) != 1 || len(lats) != 1 {
@@ -69,17 +69,31 @@ func propC05(c *Ctx) {
 		c.Violation("R5.1", "Converge/target", ld.Pos(), "cannot identify the step target (limit is not min(target - position, batch))")
 		return
 	}
-	hasDeps, noDeps := cmpEdges(conv, func(b *ssa.BinOp) bool {
-		arg, ok := lenArg(b.X)
-		if !ok {
-			return false
+	// edges on which len(Dependencies) > 0 / == 0 is known, whatever the comparison is written as
+	var hasDeps, noDeps []Edge
+	for _, spec := range []struct {
+		op      token.Token
+		k       int64
+		posTrue bool // the true edge means "has dependencies"
+	}{{token.GTR, 0, true}, {token.GEQ, 1, true}, {token.NEQ, 0, true}, {token.EQL, 0, false}, {token.LSS, 1, false}, {token.LEQ, 0, false}} {
+		spec := spec
+		t, f := m.cmpEdges(func(b *ssa.BinOp) bool {
+			arg, ok := lenArg(b.X)
+			if !ok {
+				return false
+			}
+			_, chain := fieldChain(arg)
+			n, okc := constInt(b.Y)
+			return b.Op == spec.op && okc && n == spec.k && len(chain) > 0 && chain[len(chain)-1] == fDeps
+		})
+		if spec.posTrue {
+			hasDeps, noDeps = append(hasDeps, t...), append(noDeps, f...)
+		} else {
+			hasDeps, noDeps = append(hasDeps, f...), append(noDeps, t...)
 		}
-		_, chain := fieldChain(arg)
-		n, okc := constInt(b.Y)
-		return b.Op == token.GTR && okc && n == 0 && len(chain) > 0 && chain[len(chain)-1] == fDeps
-	})
-	c.Check("R5.1", "Converge/dependency-switch", conv.Pos(), len(hasDeps) > 0 && guardedByEdges(conv, dep, hasDeps), "latestDependency is consulted exactly when len(Dependencies) > 0")
-	depZero, depNonZero := cmpEdges(conv, func(b *ssa.BinOp) bool {
+	}
+	c.Check("R5.1", "Converge/dependency-switch", conv.Pos(), len(hasDeps) > 0 && m.guarded(dep, hasDeps), "latestDependency is consulted exactly when len(Dependencies) > 0")
+	depZero, depNonZero := m.cmpEdges(func(b *ssa.BinOp) bool {
 		n, ok := constInt(b.Y)
 		return b.Op == token.EQL && b.X == depNum && ok && n == 0
 	})
@@ -89,18 +103,25 @@ func propC05(c *Ctx) {
 		if r {
 			zeroRet = false
 		}
-		if ret, ok := terminator(e.To).(*ssa.Return); !ok || !definitelyNonNilError(returnValues(ret)[0], nil) {
+		// every return reachable from the arm carries a non-nil error …
+		if g, _ := errorArmLeaves(e.From.Parent(), e, nil, nil); !g {
 			zeroRet = false
+		}
+		// … and when the test lives in a helper, its callers hand the error on
+		if f := e.From.Parent(); f != conv {
+			for cur := f; cur != conv; {
+				cs, _ := m.reg.site[cur].(*ssa.Call)
+				if cs == nil || !callErrorArmReturns(cs) {
+					zeroRet = false
+					break
+				}
+				cur = cs.Parent()
+			}
 		}
 	}
 	c.Check("R5.1", "Converge/no-dependency-progress→nothing-new", dep.Pos(), zeroRet, "dependency position 0 returns without loading")
-	var gethNum ssa.Value
-	for _, ci := range callsIn(conv) {
-		if call, ok := ci.(*ssa.Call); ok && call.Call.IsInvoke() && call.Call.Method.Name() == "Latest" {
-			gethNum = extractOf(call, 0)
-		}
-	}
-	depBelow, depNotBelow := cmpEdges(conv, func(b *ssa.BinOp) bool {
+	gethNum := m.headNum()
+	depBelow, depNotBelow := m.cmpEdges(func(b *ssa.BinOp) bool {
 		return (b.Op == token.LSS && b.X == depNum && b.Y == gethNum)
 	})
 	_ = depBelow
@@ -110,7 +131,7 @@ func propC05(c *Ctx) {
 	// min(head, dep) are the same thing
 	_ = depBelow
 	_ = depNotBelow
-	ub := &ubound{fn: conv, vac: noDeps}
+	ub := &ubound{fn: conv, vac: noDeps, reg: m.reg}
 	bounded := ub.Bounded(target, func(v ssa.Value) bool { return v == depNum })
 	c.Check("R5.1", "Converge/target-bounded-by-dependency-position", ld.Pos(), bounded,
 		"whenever the integration has dependencies, the step target is at most the position read from them")
@@ -142,7 +163,7 @@ func propC05(c *Ctx) {
 				}
 				continue
 			}
-			if !(testedNilBefore(depErr, at) && guardedByEdges(conv, at, depNonZero)) {
+			if !(testedNilBefore(depErr, at) && m.guarded(at, depNonZero)) {
 				okUse = false
 			}
 		}
@@ -259,7 +280,7 @@ func propC05(c *Ctx) {
 	// ---- R5.4 ---------------------------------------------------------
 	c.Rule("R5.4", "the reference look-up runs on the inserting transaction", 1)
 	accept := w.Fn("dig", "Filter.Accept")
-	inss := callsToFn(conv, m.insert)
+	inss := m.calls(m.insert)
 	n := 0
 	for i := range sites {
 		s := &sites[i]
